@@ -17,7 +17,9 @@ and around the commit's broadcast); after every burst a watchdog requires every
 consumer to have caught up within 3 s although no further commit comes; blocked
 consumers must be woken by Close and by context cancellation within 1 s; the
 delivered sequences are judged by TLC with Streams!DeliveredOK.
-spec: MCStreams model checks that a consumer following the specification never skips,
+spec: StreamProto (PlusCal) model checks the wake-up protocol: with the buffered signal
+channel every committed event is eventually delivered under weak fairness and a close
+releases the consumer (the unbuffered variant exhibits the lost wake-up); MCStreams model checks that a consumer following the specification never skips,
 duplicates or reorders while commits and retention interleave."""
 import json
 import os
@@ -75,6 +77,17 @@ def run(tier, replay):
     c.add_tlc(r)
     if r.violated:
         raise V.Inconclusive("MCStreams: %s violated on the model" % r.violated)
+    # the wake-up protocol (PlusCal): liveness under weak fairness with lungo's buffered signal channel
+    for cfg in ["MCStreamProto.cfg", "MCStreamProtoClose.cfg"] + (["MCStreamProtoUnbuffered.cfg"] if tier == "thorough" else []):
+        d = os.path.join(work, "sp-" + cfg)
+        os.makedirs(d)
+        V.stage_spec(d, ["StreamProto.tla", cfg])
+        r = V.tlc(d, "StreamProto.tla", cfg=cfg, timeout=600, workers=2)
+        c.add_tlc(r)
+        if cfg.endswith("Unbuffered.cfg"):
+            c.cov["model_exhibits_lost_wakeup_without_buffer"] = bool(r.violated)
+        elif r.violated:
+            raise V.Inconclusive("StreamProto (%s): %s violated on the model" % (cfg, r.violated))
     c.cov["distinct_nontrivial"] = len(nontrivial)
     c.cov["evaluations"] = c.cov.get("stream_calls_validated", 0)
     c.cov["rule"] = ("sequential histories (14 steps, up to 6 streams, 6 scopes x 4 start kinds) with every TryNext judged; concurrent runs (3 writers x 12 bursts, 5 blocked "
